@@ -198,6 +198,7 @@ SchemaOf(p, t) ==
              required |-> { JsonName(f) : f \in {x \in Range(t.fields) : ~x.embed /\ JsonVisible(x) /\ "required" \in Rules(x.valid)} },
              allOf |-> { BareName(CoreType(f.type)) : f \in {x \in Range(t.fields) : x.embed} }]
       [] t.kind = "enum" -> [k |-> "enum", t |-> PrimOf(t.base), values |-> {c.value : c \in Range(t.consts)}]
+      [] t.kind = "raw" -> [k |-> "raw"]                 \* verbatim declarations (hostile inputs): no schema expectation
       [] OTHER -> [k |-> "alias", t |-> PrimOf(t.base)]
 PlainErrorPresent(p) == \E m \in Range(p.methods) : IsApi(m) /\ m.ret # <<>> /\ m.ret[Len(m.ret)] = "error"
 ExpectedComponents(p) == { [name |-> BareName(n), schema |-> SchemaOf(p, TypeNamed(p, n))] : n \in Reachable(p) }
